@@ -123,6 +123,21 @@ func mdaDescribe(bz []byte) string {
 			b32 = "!" + s
 		}
 	}
+	// a session address put together again from its own parts (parent scope address + session uuid)
+	rb := "-"
+	if err == nil && ma.IsSessionAddress() {
+		rb = mdaE(func() ([]byte, error) {
+			sc, e1 := ma.AsScopeAddress()
+			if e1 != nil {
+				return nil, e1
+			}
+			su, e2 := ma.SessionUUID()
+			if e2 != nil {
+				return nil, e2
+			}
+			return sc.AsSessionAddress(su)
+		})
+	}
 	var sb strings.Builder
 	sb.WriteString("a=" + mdaHex(bz) + " v=" + v + " hrp=" + hrp)
 	sb.WriteString(" pu=" + mdaE(u16(ma.PrimaryUUID)))
@@ -137,7 +152,7 @@ func mdaDescribe(bz []byte) string {
 	sb.WriteString(" sit=" + mdaE(ma.ScopeSessionIteratorPrefix))
 	sb.WriteString(" rit=" + mdaE(ma.ScopeRecordIteratorPrefix))
 	sb.WriteString(" rsit=" + mdaE(ma.ContractSpecRecordSpecIteratorPrefix))
-	sb.WriteString(" is=" + is + " um=" + mdaBool(umOK) + " det=" + det + " b32=" + b32)
+	sb.WriteString(" is=" + is + " um=" + mdaBool(umOK) + " det=" + det + " b32=" + b32 + " rb=" + rb)
 	return sb.String()
 }
 
@@ -500,6 +515,20 @@ func mdaGenOp(r *RNG, out *Out) string {
 			arg = mdaHex(mdaGenName(r))
 		}
 		out.Count("op:derive:" + k)
+		if r.Chance(50) {
+			// a valid parent of a type the derivation is documented for (parts -> address must succeed)
+			kinds := []string{"scope", "session", "record"}
+			if k == "rspec" || k == "cspec" {
+				kinds = []string{"cspec", "rspec"}
+			}
+			pk := Pick(r, kinds)
+			b := append([]byte{mdaKindByte[pk]}, mdaGenUUID(r)...)
+			if pk != "scope" && pk != "cspec" {
+				b = append(b, mdaGenUUID(r)...)
+			}
+			out.Count("derive:valid-parent:" + pk)
+			return "derive " + mdaHex(b) + " " + k + " " + arg
+		}
 		return "derive " + mdaHex(mdaGenBytes(r, out)) + " " + k + " " + arg
 	case x < 90:
 		ix := Pick(r, []string{"as", "ss", "ap", "cp", "ac", "nav"})
